@@ -345,6 +345,18 @@ fn words_leg(g: &Grammar) -> Acc {
     ] {
         words.push(w.to_string());
     }
+    for n in [2usize, 9, 31, 32, 33, 64, 255, 256, 1000] {
+        words.push("a".repeat(n));
+        words.push(format!("a{}", "_9".repeat(n)));
+        words.push(format!("i{}", "0".repeat(n)));
+        words.push(format!("i{}7", "0".repeat(n)));
+        words.push(format!("f{}.5", "0".repeat(n)));
+        words.push(format!("d0.{}5", "0".repeat(n.min(27))));
+        words.push(format!("0x{}f", "0".repeat(n)));
+        words.push(format!("\"{}\"", "é😀a".repeat(n)));
+        words.push(format!("x{}+{}y", " ".repeat(n), "\n".repeat(n)));
+        words.push(format!("x{}+ y", " // c\n".repeat(n.min(64))));
+    }
     words.sort();
     words.dedup();
     let mut texts = Vec::new();
